@@ -63,6 +63,22 @@ CLAIMS["C18"] = dict(
     text="TLC enumerates every sequence of owned / borrowed / cached computations and mutations over a pool of control-point lists (including empty and single-point) sharing one buffer set and one SliderPath and checks that each computing call returns the curve of its own input and that the cache always belongs to the current inputs; the real API is driven through every sequence and must equal a fresh computation at every step.",
     note="Trusted: TLC; F(input) is realised as Curve::new on fresh buffers. The pool has 6 lists x 3 length choices; bounds 3-6 operations.")
 
+CLAIMS["C08"] = dict(
+    category="model_checking", design_ref="DESIGN.md section 4, C08",
+    technique="TLA+ spec Reader (BufRead as environment: chunk schedule, Interrupted; decoder: BOM sniffing + line splitting as actions) with invariant ScheduleIndependent checked by TLC on every short file x every schedule; replay through a scheduled BufRead and a recording DecodeBeatmap implementor; the same relation evaluated on bundled/random files under many delivery schedules",
+    text="TLC proves on the model that for every short byte string and every way a BufRead may cut it into chunks (down to single bytes, a first chunk shorter than a BOM) and interleave Interrupted results, the decoder yields the same encoding and lines; the real decoder is replayed on each file under the model's witness schedule and seeded others and must equal its own single-chunk result, and on bundled and random files in four encodings all of: fixed chunk sizes, random schedules with interruptions, BufReader capacities 1..16, from_str and from_path must equal from_bytes.",
+    note="Trusted: TLC, harness ScheduledReader (BufRead contract), Beatmap's PartialEq plus expected_dist comparison.")
+CLAIMS["C09"] = dict(
+    category="fault_enumeration", design_ref="DESIGN.md section 4, C09",
+    technique="TLA+ spec Reader with a fault environment (failure at any offset x kind, Interrupted budget): invariant ErrorProvenance and liveness FaultSurfaces/Terminates checked by TLC; replay through a faulting BufRead; systematic fault injection at every read offset and every write offset of real files (FaultWriter: error kinds, zero-length writes, short writes, Interrupted, flush failure)",
+    text="On the model TLC enumerates every fault offset and kind under every schedule and checks that decoding ends with exactly that error iff the fault is reached, that Interrupted never surfaces and that no error appears without a reader failure; the real code is replayed on those behaviours, and on bundled/random files a fault is injected at every byte offset (sampled for large files) x five kinds on read and at every output offset on write (hard error, zero-length write), with short writes and Interrupted writes required to be transparent and a flush failure required to be returned.",
+    note="Fault enumeration is exhaustive on the model's short files and on small real files; large files use sampled offsets. The write side is bound by injection only (no TLA+ model of std's write_all).")
+CLAIMS["C10"] = dict(
+    category="model_checking", design_ref="DESIGN.md section 4, C10",
+    technique="TLA+ spec Reader: the operational line reader refined to a declarative rule that splits UTF-16 on the code unit U+000A only, checked by TLC over payloads containing 0x0A-bearing units, surrogate halves and invalid UTF-8; replay comparing delivered text with std's lossy conversion of the model's raw lines; cross-encoding equality and lossy-reference relations on real texts; exhaustive Unicode scalar sweep in the thorough tier",
+    text="TLC checks that the byte-level reader and the text-level rule agree for every payload up to the bound in UTF-8, UTF-16LE and UTF-16BE (including an LE stream cut inside its final newline); the real reader must deliver, for each such file, exactly std's lossy text of the model's lines; bundled and random texts with hostile characters (U+4E0A, U+0A41, U+0A0A, U+FEFF, astral) must decode identically in all four encodings, invalid UTF-8 and unpaired surrogates must equal the per-line lossy reference, and the thorough tier sweeps every Unicode scalar value as metadata content in the three BOM encodings.",
+    note="Trusted: TLC, std's lossy conversions as the reference. An odd trailing byte of a UTF-16 stream is dropped (not determined by the statement; the model follows the code).")
+
 NOT_YET = "check not built yet in this round (planned, see DESIGN.md section 4)"
 NA = {
     "C17": "real-valued geometry (Hausdorff distance to Bezier/arc/Catmull curves): no discrete state or history for a TLA+ specification to decide; see DESIGN.md section 4, C17",
